@@ -129,6 +129,10 @@ func decodeTotal(c *core.Case, family string, t reflect.Type, in []byte) (err er
 		}
 		if !ok {
 			c.Count("accepted-but-reference-rejects", 1) // e.g. field number 0 or groups: noted, not part of the statement
+			if serr != nil {
+				// whatever the reference thinks, Scan must enumerate what Unmarshal consumed
+				c.Violation(class+"|Scan", "unmarshal-accepts-scan-rejects", fmt.Sprintf("Unmarshal accepts %x but Scan fails on it: %v", tr(in), serr), w)
+			}
 		}
 	}
 	return err, out
